@@ -190,14 +190,15 @@ def pcanon(p) -> str:
     return "-" if p is None else p.encode()
 
 
-def state_of(conn: Connection, strip_time: bool = False) -> dict:
+def state_of(conn: Connection, strip_time: bool = False, sort_lists: bool = False) -> dict:
     import json
     import re
     out = {}
     for q, dq in conn.message_broker.queues.items():
         def m3(m):
             return [m.key.id_, m.key.topic, m.payload, pcanon(m.parameters)]
-        out[q] = {"simple": [m3(m) for m in dq.simple._queue], "dead": [m3(m) for m in dq.dead],
+        out[q] = {"simple": (sorted if sort_lists else list)(m3(m) for m in dq.simple._queue),
+                  "dead": (sorted if sort_lists else list)(m3(m) for m in dq.dead),
                   "processing": sorted(m3(m) for m in dq.processing),
                   "delayed": (sorted(m3(m) for v in dq.delayed.values() for m in v) if strip_time
                               else sorted([str(k)] + [m3(m) for m in v] for k, v in dq.delayed.items()))}
@@ -357,7 +358,7 @@ async def run_workers(sc: dict, subs: dict) -> dict:
             t.cancel()
         await asyncio.gather(*tasks, return_exceptions=True)
         errors = [repr(t.exception()) for t in tasks if t.done() and not t.cancelled() and t.exception() is not None]
-        return {"tracer": tr, "ran": sorted(ran), "state": {t: state_of(c, strip_time=True) for t, c in conns.items()},
+        return {"tracer": tr, "ran": sorted(ran), "state": {t: state_of(c, strip_time=True, sort_lists=True) for t, c in conns.items()},   # (which job finishes first is timing)
                 "errors": errors, "counter": counter, "n_setup": n_setup}
     finally:
         _abc.middleware_wrapper = orig_mw
